@@ -17,6 +17,7 @@ def fmtF (k : String) : List Nat := ((fmtFunc.find? (·.1 == k)).map (·.2)).get
     not know: `facts_queries` then fails). `enterAltScreen` is the prelude, not a query. -/
 def callWire (call : String) : Option (List Nat) :=
   if call = "enterAltScreen" then some []
+  else if call = "defer vx.exitAltScreen" then some []
   else if call = "write userCursorStyle" then some (strC "userCursorStyle")
   else if call = "write decrqm(synchronizedUpdate)" then some (instFmt (fmtF "decrqm") [intBytes (numC "synchronizedUpdate")])
   else if call = "write decrqm(unicodeCore)" then some (instFmt (fmtF "decrqm") [intBytes (numC "unicodeCore")])
@@ -41,8 +42,85 @@ def callWire (call : String) : Option (List Nat) :=
   else if call = "write primaryAttributes" then some (strC "primaryAttributes")
   else none
 
-/-- Every statement recognised, and the wire bytes of the queries (prelude dropped), in source order. -/
-def queryWire : Option (List (List Nat)) := (sendQueries.mapM callWire).map (·.drop 1)
+/-- Every statement recognised, and the wire bytes of the queries (the prelude — `enterAltScreen()`
+    and the deferred `exitAltScreen()` — dropped), in source order. -/
+def queryWire : Option (List (List Nat)) := (sendQueries.mapM callWire).map (·.drop 2)
+
+/-! ### the start-up helpers `enterAltScreen()`, `exitAltScreen()`, `enableModes()` -/
+
+/-- The guards of `enableModes()` under the capability set detected inside the emulator
+    (`{sixels, unicodeCore}`, mouse not disabled); an unknown guard is `none`. -/
+def guardVal (g : String) : Option Bool :=
+  if g = "vx.caps.kittyKeyboard" then some false
+  else if g = "vx.caps.sixels" then some true
+  else if g = "vx.caps.unicodeCore && !vx.caps.explicitWidth" then some true
+  else if g = "vx.caps.colorThemeUpdates" then some false
+  else if g = "vx.caps.inBandResize" then some false
+  else if g = "!vx.disableMouse" then some true
+  else none
+
+/-- `l` without the prefix `pre`, if it has it. -/
+def stripPre (pre l : List Char) : Option (List Char) :=
+  if pre.isPrefixOf l then some (l.drop pre.length) else none
+
+/-- `decset(name)` / `decrst(name)` with `name` an integer constant of sequences.go. -/
+def modeCall (pre : String) (f : String) (call : String) : Option (List Nat) :=
+  match stripPre pre.toList call.toList with
+  | some rest =>
+    if rest.getLast? = some ')' then
+      let n := numC (String.ofList rest.dropLast)
+      if n < 0 then none else some (instFmt (fmtF f) [intBytes n])
+    else none
+  | none => none
+
+/-- The bytes of one unguarded statement of a start-up helper (`some []` = writes nothing). -/
+def helperCall (call : String) : Option (List Nat) :=
+  if call = "flush" then some (strC "sgrReset")
+  else if call = "write clear" then some (strC "clear")
+  else if call = "write applicationMode" then some (strC "applicationMode")
+  else if call = "assign vx.tw.vx.refresh = true" then some []
+  else if call = "call vx.HideCursor" then some []
+  else match modeCall "write decset(" "decset" call with
+    | some b => some b
+    | none => modeCall "write decrst(" "decrst" call
+
+/-- Split `"<guard>: <call>"` at the first `": "`. -/
+def splitGuard : List Char → List Char → Option (List Char × List Char)
+  | _, [] => none
+  | acc, ':' :: ' ' :: rest => some (acc.reverse, rest)
+  | acc, c :: rest => splitGuard (c :: acc) rest
+
+/-- One entry (`"if <guard>: <call>"` or `<call>`): `none` = not recognised; `some []` = nothing written. -/
+def helperEntry (e : String) : Option (List Nat) :=
+  match stripPre "if ".toList e.toList with
+  | some rest =>
+    match splitGuard [] rest with
+    | some (g, call) =>
+      match guardVal (String.ofList g) with
+      | some true => helperCall (String.ofList call)
+      | some false => some []
+      | none => none
+    | none => none
+  | none => helperCall e
+
+/-- The writes of a helper (empty ones dropped), every statement recognised. -/
+def helperWire (l : List String) : Option (List (List Nat)) := (l.mapM helperEntry).map (·.filter (· ≠ []))
+
+/-- Everything `New()` writes from `sendQueries()` to the end of `enableModes()`, write by write. -/
+def startupWire : Option (List (List Nat)) := do
+  let en ← helperWire enterAltScreen
+  let qs ← queryWire
+  let ex ← helperWire exitAltScreen
+  let em ← helperWire enableModes
+  pure (en ++ qs ++ ex ++ en ++ em)
+
+/-- `startupAll`, write by write. -/
+def startupAllGroups : List (List VaxisModel.Model.Emu.EOp) :=
+  [[q [63, 104] [1049]], [q [63, 108] [25]], [q [109] []]] ++ startupGroups ++
+  [[q [63, 104] [25]], [q [72] [], q [74] [2]], [q [63, 108] [1049]], [q [109] []]] ++
+  [[q [63, 104] [1049]], [q [63, 108] [25]], [q [109] []]] ++
+  [[q [63, 104] [8452]], [q [63, 104] [2027]], [q [63, 104] [2004]], [q [63, 104] [1]], [.esc [61]],
+   [q [63, 104] [1002]], [q [63, 104] [1003]], [q [63, 104] [1004]], [q [63, 104] [1006]], [q [109] []]]
 
 def allMatch : List (List Nat) → List (List VaxisModel.Model.Emu.EOp) → Bool
   | [], [] => true
